@@ -388,5 +388,19 @@ CHECKS["C19"]["thorough"] += [_g2("g_two_b_dropped_while_a_before_first", _W_TWO
 CHECKS["C19"]["bounds"] += "; operations on B (dispatch + stop/drop, with B's loop running inside B's join) placed at 3 scheduling points inside A's loop run (K=1)"
 CHECKS["C19"]["outside"] = "more than two stores; operations of one store issued from inside a CALLBACK of the other (cross-store dispatch from a subscriber), thread-local or thread-name based coupling (all modelled contexts share one OS thread); interference through user-supplied shared objects"
 
+_W_EFULL = "real StoreImpl::do_effect run in the reducer context against a FULL BlockOnFull dispatch queue (nobody takes from it while the reducer is inside the phase); oracle: the phase returns without the reducer waiting on its own queue (a wait is reported as deadlock), enqueues nothing itself, submits every effect; then the workers run: each follow-up dispatch waits for room, is served by exactly one reducer take and is accepted; the queue never exceeds its capacity"
+U_EFULL = [_ph("u_effect_full_action_cap1", _W_EFULL, "Effect::Action, capacity 1"), _ph("u_effect_full_thunk_action_cap2", _W_EFULL, "Thunk+Action, capacity 2"), _ph("u_effect_full_action_thunk_cap1", _W_EFULL, "Action+Thunk, capacity 1"), _ph("u_effect_full_task_action_cap2", _W_EFULL, "Task+Action, capacity 2")]
+CHECKS["C13"]["quick"] += U_EFULL[:2]
+CHECKS["C13"]["thorough"] += U_EFULL[2:]
+CHECKS["C13"]["bounds"] += "; (e) the effect phase against a full BlockOnFull queue (1-2 effects, capacity 1-2): the reducer context never waits on its own queue"
+CHECKS["C11"]["quick"] += U_EFULL[:1]
+CHECKS["C11"]["thorough"] += U_EFULL[1:]
+CHECKS["C05"]["thorough"] += U_EFULL[:2]
+
+_W_SELU = "real SelectorSubscriber: symbolic notifications with on_unsubscribe() delivered to the object before a later one (a subscriber unsubscribed while a round whose snapshot contains it is in progress); oracle: before it the exact de-duplicated stream; after it the object may stay silent but never delivers again the value it last delivered, and what it delivers carries the right value and action"
+CHECKS["C16"]["quick"] += [H("u_selector::u_selector_n3_unsub_before_last", _W_SELU, "n=3, on_unsubscribe before the third", timeout_s=400)]
+CHECKS["C16"]["thorough"] += [H("u_selector::u_selector_n4_unsub_before_third", _W_SELU, "n=4, on_unsubscribe before the third", timeout_s=400)]
+CHECKS["C16"]["bounds"] += "; plus on_unsubscribe() delivered between notifications (1 position per harness)"
+
 HOOK_COMMITS = ['da8b80e', '8cd617e', '39efd23']
 NOT_APPLICABLE = {}
